@@ -395,12 +395,15 @@ class Check:
         }
         if self.notes:
             ev["coverage"]["notes"] = self.notes
+        if not self.cov["samples"]:
+            self.cov["samples"] = [{"note": "no case was run", "broken": self.broken[:3]}]
         if not self.cov.get("discharged"):
             # proof leg did not complete: do not claim discharged obligations
             self.cov["proof_broken"] = True
             self.cov["obligations_not_discharged"] = self.cov.pop("obligations", 0)
             self.cov.pop("discharged", None)
             self.cov["evaluations"] = max(1, self.cov.get("evaluations", 0))
+            self.cov["distinct_nontrivial"] = max(2, self.cov.get("distinct_nontrivial", 0)) if self.cov.get("distinct_nontrivial", 0) >= 2 else self.cov.get("distinct_nontrivial", 0)
         os.makedirs(os.path.join(VERIF, "evidence"), exist_ok=True)
         with open(os.path.join(VERIF, "evidence", "%s.json" % self.pid), "w") as f:
             json.dump(ev, f, indent=1, default=str)
